@@ -9,6 +9,7 @@
  *             cache16 created, ndds 16, Hcache on, 2 elements
  *             reopen  written and closed before; reopened RDWR with Hcache on, 1 more element
  *             read    written and closed before; reopened READ, one element read
+ *             rdwr    written and closed before; reopened RDWR, one element read (last operation = read)
  *             attached an access record is still attached (Hclose must refuse)
  *             two     opened twice (reference count 2)
  *   function  HPseek <off> | HPseekcur 0 | HP_write <n> | HP_read <n> | HIextend_file 0 | HTPsync 0 | HIsync 0 |
@@ -26,13 +27,13 @@ static void fn_body(const char *path, void *argp)
     armed = 0; recording = 0;
     int ndds = !strcmp(sc, "cache16") ? 16 : 4;
     int nocache = !strcmp(sc, "nocache");
-    if (!strcmp(sc, "reopen") || !strcmp(sc, "read")) {
+    if (!strcmp(sc, "reopen") || !strcmp(sc, "read") || !strcmp(sc, "rdwr")) {
         fid = Hopen(path, DFACC_CREATE, 4);
         Hputelement(fid, 100, 1, pat, 40);
         Hputelement(fid, 100, 2, pat + 40, 60);
         Hclose(fid);
         fid = Hopen(path, !strcmp(sc, "read") ? DFACC_READ : DFACC_RDWR, 0);
-        if (!strcmp(sc, "read")) Hgetelement(fid, 100, 2, buf);
+        if (!strcmp(sc, "read") || !strcmp(sc, "rdwr")) Hgetelement(fid, 100, 2, buf);
         else { Hcache(fid, TRUE); Hputelement(fid, 101, 1, pat, 30); }
     }
     else {
